@@ -243,6 +243,22 @@ def parse_dates(numbers):
     return parse_numbers(numbers, True)
 
 
+def parse_int(value):
+    """ Converts a string into an integer. Aborts if the string is not an integer. """
+    try:
+        return int(value)
+    except ValueError:
+        error("Could not translate '" + value + "' into an integer")
+
+
+def parse_float(value):
+    """ Converts a string into a number. Aborts if the string is not a number. """
+    try:
+        return float(value)
+    except ValueError:
+        error("Could not translate '" + value + "' into a number")
+
+
 def parse_colors(colors):
     """
     """
